@@ -677,7 +677,12 @@ func (r *spRunner) run(bi int, beh []map[string]any, compare bool, res *vh.Resul
 		completed = 0
 	}
 	violate := func(v spVerdict, c string) {
-		res.Violate("C25", v.sig+":"+r.protoName(), fmt.Sprintf("connection %s: %s (behaviour %d %s versioned=%v)", c, v.what, bi, r.protoName(), r.versioned), replay())
+		what := fmt.Sprintf("connection %s: %s (behaviour %d %s versioned=%v)", c, v.what, bi, r.protoName(), r.versioned)
+		res.Violate("C25", v.sig+":"+r.protoName(), what, replay())
+		if strings.HasPrefix(v.sig, "delta-base") || strings.HasPrefix(v.sig, "json-escape") || strings.HasPrefix(v.sig, "data-format") {
+			// the keyed path of C14: a delivered delta (or delta-format full payload) does not reconstruct
+			res.Violate("C14", "keyed:"+v.sig+":"+r.protoName(), what, replay())
+		}
 		completed = 0
 	}
 	// initial backend state of the model
